@@ -288,7 +288,7 @@ def r5(ctx, backpressure=True):
              'the timeout flag is tested and then socket.write() may block on back-pressure with zero bytes accepted: the call times out meanwhile and the whole frame goes out when the peer reads again',
              'once the caller has TimeoutError no byte of the request may be written; a blocking write that starts after the check cannot be recalled')
     if skip:
-      ctx.ob('C12.R5', sl, 'a timed-out frame is not written', not w and ex[0] in ('continue',), 'skip path writes %d, exit %s' % (len(w), ex[0]), why)
+      ctx.ob('C12.R5', sl, 'a timed-out frame is not written', not w and ex[0] in ('continue', 'fall'), 'skip path writes %d, exit %s' % (len(w), ex[0]), why)
   ctx.floor('C12.R5', 'write paths of the send loop', nw, 1)
   # the callback: pops Tag.KEY and discards that tag
   subs = [c for c in walk_no_nested(ht.node) if isinstance(c, ast.Call) and call_attr(c) == 'Subscribe']
